@@ -454,6 +454,14 @@ func (s *seqSt) mintAmount0(o slice) *big.Int {
 	}
 	// token value of the user's delegation
 	val := new(big.Int).Div(new(big.Int).Mul(o.delU, o.tokens), o.shares)
+	if o.isOper && r.Chance(35) {
+		// the self-delegation guard: leave exactly the minimum, one less, one more (in tokens and in shares)
+		left := new(big.Int).Sub(val, o.minSelf)
+		if r.Chance(30) {
+			left = new(big.Int).Sub(new(big.Int).Div(o.delU, P), o.minSelf)
+		}
+		return new(big.Int).Add(left, bi(r.Range(-1, 1)))
+	}
 	switch r.Intn(12) {
 	case 0:
 		return bi(1)
@@ -1085,7 +1093,7 @@ func main() {
 	out := c.NewOut(c.OutPath())
 	defer out.Close()
 	r := c.NewRng(c.Seed())
-	n := c.Budget(400, 20000)
+	n := c.Budget(400, 12000)
 	// app.NewTestApp rewrites the global bech32 configuration: build the worlds one after the other,
 	// before any sequence runs
 	workers := c.Workers()
